@@ -7,6 +7,7 @@ import (
 	"fmt"
 	"os"
 	"path/filepath"
+	"runtime"
 	"sort"
 	"strings"
 	"sync"
@@ -127,8 +128,19 @@ func RunConc(s *kernel.Sim, prof *Profile, free bool) *Env {
 	e.MakeCallers(nRestricted, []string{"*", e.Names[0], "nomatch", e.Names[0] + "*"})
 	auditPath := filepath.Join(e.Dir, "audit.log")
 	unsyncable := false
+	auditFull := false
 	if free {
 		// real audit file
+		if t.Bool(1, 3) {
+			// ... which already holds a previous process's records and sits
+			// on a volume that fills up while the clients are at it
+			auditFull = true
+			var pad bytes.Buffer
+			for pad.Len() < 96<<10 {
+				fmt.Fprintf(&pad, `{"id":%d,"time":"1999-12-31T00:00:00Z","principal":{"hostname":"earlier.example.ts.net","ip":"100.64.0.9"},"action":"info","authorized":true}`+"\n", pad.Len())
+			}
+			os.WriteFile(auditPath, pad.Bytes(), 0o600)
+		}
 		w, err := audit.NewFile(auditPath)
 		if err == nil && t.Bool(1, 6) {
 			// ... or a sink that cannot be synced (the log pointed at
@@ -222,7 +234,7 @@ func RunConc(s *kernel.Sim, prof *Profile, free bool) *Env {
 				}
 			}
 			mop := e.ModelOp(op)
-			co := &ConcOp{Client: c, Caller: caller, Op: op, Faulted: unsyncable,
+			co := &ConcOp{Client: c, Caller: caller, Op: op, Faulted: unsyncable || auditFull,
 				Allowed: caller.Super || mop.Kind == model.OpList || model.Allows(caller.Rules, mop.Kind.Action(), mop.Name)}
 			ops = append(ops, co)
 			perClient[c] = append(perClient[c], co)
@@ -275,11 +287,32 @@ func RunConc(s *kernel.Sim, prof *Profile, free bool) *Env {
 	}
 
 	if free {
+		stopFull := make(chan struct{})
+		if auditFull && !unsyncable {
+			// after a few calls the volume has room for about one more record
+			after := int64(2 * t.Range(1, 6))
+			go func() {
+				for stamp.Load() < after {
+					select {
+					case <-stopFull:
+						return
+					default:
+						runtime.Gosched()
+					}
+				}
+				if fi, err := os.Stat(auditPath); err == nil {
+					setFileSizeLimit(uint64(fi.Size()) + 330)
+					s.Fault("audit-volume-full")
+				}
+			}()
+		}
 		for c := 0; c < nClients; c++ {
 			wg.Add(1)
 			go client(c)(nil)
 		}
 		wg.Wait()
+		close(stopFull)
+		setFileSizeLimit(0)
 	} else {
 		e.parkAudit, e.parkHTTP = true, true
 		s.SetFree(false)
@@ -394,6 +427,17 @@ func RunConc(s *kernel.Sim, prof *Profile, free bool) *Env {
 	}
 
 	// ---- judge: linearizability against the map model ----
+	if auditFull {
+		// the audit writer of the running handle may be broken for good by
+		// now (every call, the observer's included, fails closed): read the
+		// state out through a fresh handle on the same file
+		d2, err := db.Open(e.Path, e.KEK, audit.New(discard{}))
+		if err != nil {
+			e.fail("linearizable", "after the run the database file does not open: %v", err)
+			return e
+		}
+		e.DB = d2
+	}
 	dump, err := e.Observe()
 	if err != nil {
 		e.fail("linearizable", "final read-out failed: %v", err)
@@ -459,7 +503,7 @@ func RunConc(s *kernel.Sim, prof *Profile, free bool) *Env {
 	}
 	if free {
 		if !unsyncable {
-			e.judgeAuditFile(auditPath, ops)
+			e.judgeAuditFile(auditPath, ops, auditFull)
 		}
 		e.auditFileSharing()
 	}
@@ -583,7 +627,7 @@ func joinLines(l []string) string {
 
 // judgeAuditFile: with concurrent writers on a real O_APPEND audit file every
 // line must be whole, and every expected record must be present.
-func (e *Env) judgeAuditFile(path string, ops []*ConcOp) {
+func (e *Env) judgeAuditFile(path string, ops []*ConcOp, faultMode bool) {
 	if !e.Prof.Oracles["audit-file"] {
 		return
 	}
@@ -597,12 +641,20 @@ func (e *Env) judgeAuditFile(path string, ops []*ConcOp) {
 		e.fail("audit-file", "audit file mode %v is not owner-only", fi.Mode().Perm())
 	}
 	got := map[string]int{}
+	whole, _ := os.ReadFile(path)
+	nLines := bytes.Count(whole, []byte("\n"))
 	sc := bufio.NewScanner(f)
 	sc.Buffer(make([]byte, 1<<20), 1<<20)
 	n := 0
 	for sc.Scan() {
 		n++
 		var l auditLine
+		if faultMode && n == nLines+1 {
+			// the torn fragment of the append that hit the full disk, at the
+			// very end of the file: nothing was (or could be) appended after it
+			e.S.Probe("audit-file-torn-tail")
+			break
+		}
 		if err := json.Unmarshal(sc.Bytes(), &l); err != nil || l.Authorized == nil || l.ID == nil {
 			e.fail("audit-file", "audit file line %d is not a whole record (interleaved or truncated): %q", n, sc.Text())
 			return
@@ -618,6 +670,15 @@ func (e *Env) judgeAuditFile(path string, ops []*ConcOp) {
 			v = mop.Version
 		}
 		auth := co.Allowed
+		if co.Allowed && co.Res.Class != model.OK && mop.Kind != model.OpGetIfChanged {
+			continue // nothing returned, nothing took effect: no record required
+		}
+		if !co.Allowed && (co.Res.Class != model.AccessDenied || faultMode) {
+			// not refused for lack of permission but failed some other way; or
+			// refused while the log could not be written (the refusal stands,
+			// the record cannot exist)
+			continue
+		}
 		switch {
 		case mop.Kind == model.OpList:
 			want[fmt.Sprintf("%s|info||0|true", co.Caller.Node)]++
